@@ -66,8 +66,23 @@ def canon_json(x):
     return json.dumps(norm(x), sort_keys=True)
 
 
+# rewards may be fractions (the configuration accepts any number): the model computes in Z, so a session whose rewards are
+# multiples of 1/RSCALE is followed at that scale (the coordinator only adds configured values)
+RSCALE = [1]
+
+
 def zsigned(z):
-    return [1 if z < 0 else 0, abs(int(z))]
+    v = z * RSCALE[0]
+    if v != int(v):
+        return [2, 0]           # not a multiple of the configured granularity: no state of the model serialises to this
+    v = int(v)
+    return [1 if v < 0 else 0, abs(v)]
+
+
+def reward_scale(cfg):
+    rew = (cfg.get("env") or {}).get("rewards") or {}
+    vals = [v for v in rew.values() if isinstance(v, (int, float)) and not isinstance(v, bool)]
+    return 1 if all(float(v).is_integer() for v in vals) else 4
 
 
 def ser_list(f, l):
@@ -97,6 +112,8 @@ class Session:
         self.workdir = workdir or tempfile.mkdtemp(prefix="sess_", dir=nsgenv.BUILD)
         os.makedirs(self.workdir, exist_ok=True)
         os.chdir(self.workdir)
+        RSCALE[0] = reward_scale(cfg)
+        self.rscale = RSCALE[0]
         import AIDojoCoordinator.global_defender as gd
         self._gd = gd
         self._gd_random = gd.random
@@ -441,8 +458,8 @@ def session_to_coq(sess, goals_by_role, use_defender):
          "Import ListNotations.",
          "Definition cfg : config := {| required := %d; max_steps := fun r => match r with RAttacker => %s | RDefender => %s | RBenign => %s end;"
          " r_step := (%d)%%Z; r_succ := (%d)%%Z; r_fail := (%d)%%Z; allowed := fun _ => true; save_traj := %s |}." %
-         (int(env.get("required_players", 1)), ms("Attacker"), ms("Defender"), ms("Benign"), int(rew.get("step", 0)), int(rew.get("success", 0)),
-          int(rew.get("fail", 0)), "true" if env.get("save_trajectories") else "false"),
+         (int(env.get("required_players", 1)), ms("Attacker"), ms("Defender"), ms("Benign"), int(round(rew.get("step", 0) * sess.rscale)), int(round(rew.get("success", 0) * sess.rscale)),
+          int(round(rew.get("fail", 0) * sess.rscale)), "true" if env.get("save_trajectories") else "false"),
          "Definition goal_tab : list (Z * N) := [" + "; ".join(goal_tab) + "].",
          "Definition oracle : list N := [" + "; ".join(f"{v}%N" for v in sess.oracle) + "].",
          f"Definition tabs : option tables := {'Some gen_tables' if use_defender else 'None'}.",
